@@ -236,9 +236,8 @@ inline constexpr void Conversion<Unit::MassDensity, Unit::MassDensity::PoundPerC
 }
 
 template <typename NumericType>
-inline const std::
-    map<Unit::MassDensity, std::function<void(NumericType* values, const std::size_t size)>>
-        MapOfConversionsFromStandard<Unit::MassDensity, NumericType>{
+inline constexpr auto MapOfConversionsFromStandard<Unit::MassDensity, NumericType>{
+  MakeConversionTable<Unit::MassDensity, NumericType>({
           {Unit::MassDensity::KilogramPerCubicMetre,
            Conversions<Unit::MassDensity, Unit::MassDensity::KilogramPerCubicMetre>::
                FromStandard<NumericType>},
@@ -257,12 +256,12 @@ inline const std::
           {Unit::MassDensity::PoundPerCubicInch,
            Conversions<Unit::MassDensity, Unit::MassDensity::PoundPerCubicInch>::
                FromStandard<NumericType>},
+})
 };
 
 template <typename NumericType>
-inline const std::
-    map<Unit::MassDensity, std::function<void(NumericType* const values, const std::size_t size)>>
-        MapOfConversionsToStandard<Unit::MassDensity, NumericType>{
+inline constexpr auto MapOfConversionsToStandard<Unit::MassDensity, NumericType>{
+  MakeConversionTable<Unit::MassDensity, NumericType>({
           {Unit::MassDensity::KilogramPerCubicMetre,
            Conversions<Unit::MassDensity, Unit::MassDensity::KilogramPerCubicMetre>::
                ToStandard<NumericType>},
@@ -281,6 +280,7 @@ inline const std::
           {Unit::MassDensity::PoundPerCubicInch,
            Conversions<Unit::MassDensity, Unit::MassDensity::PoundPerCubicInch>::
                ToStandard<NumericType>},
+})
 };
 
 }  // namespace Internal
